@@ -203,7 +203,8 @@ class View:
 
 
 TEXTS = ["", "a", "a b", "é", "a/b", "a%20b", "%", "a:b", "a@b", "a?b", "a#b", "..", ".", "./x", "a+b", "a&b=c", "\udc80x", "x.y", ".hid",
-         "a%2Fb", "ü.txt", "[x]", "a;b", "\x00", "\x7f", "\U0001f600", "a\tb", "%zz", "%2", "%C3%A9", "%c3%a9", "%FF", "<>\"{}|\\^`", "x‮y"]
+         "a%2Fb", "ü.txt", "[x]", "a;b", "\x00", "\x7f", "\U0001f600", "a\tb", "%zz", "%2", "%C3%A9", "%c3%a9", "%FF", "<>\"{}|\\^`", "x‮y",
+         "section\n", "\nx", "x\r", "a\x0bb", "x\x85", "tail\x00", "sec\udc80tion", "x\ud800"]
 QVALS = ["v", "", "a b", "é", "a+b", "a&b", "a=b", "%41", "a;b", "#", 1, 0, -5, 10 ** 20, 1.5, -0.0, 1e300, 1e-7, float("inf"), float("nan"),
          True, None, ["a", "b"], [1, 2], [], ("x",), "\U0001f600"]
 QKEYS = ["a", "b", "a b", "é", "k+", "k&", "k=", "", "a", "c", "k;", "%41"]
@@ -349,6 +350,12 @@ def quoter_strings(rng, tier, budget):
     pr = [chr(i) for i in range(0x20, 0x7F)]
     strs += ["%" + a + b for a in pr for b in pr]
     strs += ["%" + a + b for a in "4aF" for b in "\u0430\u0441\u0161\u0142\uff11\uff21\u0660\u00b2"] + ["%" + b + a for a in "4aF" for b in "\u0430\u0441\u0161\u0142\uff11\uff21\u0660\u00b2"]
+    # every ASCII character (and a few others) put at the start / in the middle / at the end of otherwise all-safe texts:
+    # the classic blind spots of anchored regular expressions and of "nothing to do" shortcuts (trailing newline, NUL, DEL, …)
+    singles = [chr(i) for i in range(128)] + ["\x80", "\xa0", "\u2028", "\u0130", "\udc80", "\U0001f600"]
+    for base in ("abc", "a/b-c", "k=v", "A.z~_"):
+        for c in singles:
+            strs += [c + base, base[:2] + c + base[2:], base + c, base + c + c]
     strs += [gens.rand_text(rng) for _ in range(int((4000 if tier == "quick" else 60000) * budget))]
     return strs
 
